@@ -189,12 +189,15 @@ def rule_residual_invariant(ctx, rid, fi, extractor_pred, context=None, arg_of=N
         for ls in e.state.loops:
             if ls.node is loop:
                 summ = ls
+    if summ is None and ev.loops_seen.get(loop):
+        summ = ev.loops_seen[loop][-1]        # the loop is only left by return / raise inside its body
     if summ is None:
-        # loop never left normally (e.g. returns inside): use any recorded loop summary
-        raise AnalysisError('%s: layer loop has no normal exit' % fi.qualname)
+        raise AnalysisError('%s: layer loop was never evaluated' % fi.qualname)
     n_back = 0
     if resid_var is not None:
         for kind, b in summ.body_states:
+            if kind not in ('back', 'back2'):
+                continue
             n_back += 1
             rv = b.env.get(resid_var)
             if rv is None:
